@@ -1118,7 +1118,7 @@ pub fn run_check(tier_name: &str, seed: u64, verif_dir: &str) -> Outcome {
         "coverage": {
             "evaluations": evaluations,
             "distinct_nontrivial": distinct.len(),
-            "rule": "one evaluation = one call of mamba::mamba_to_python (real code) on a simulated thread whose hash keys, stub-directory order, clock, pid, earlier jobs, thread placement and (in concurrent rounds) interleaving at intercepted libc calls were decided by the seed; compared with the canonical run of the same program (keys 0, sorted directory, fresh process). distinct_nontrivial counts distinct (program digest, hash-order fingerprint of the job's thread at job start) pairs among the non-canonical jobs.",
+            "rule": "one evaluation = one call of mamba::mamba_to_python (real code; for one program in eight mamba::transpile_dir on a private project directory) on a simulated thread whose hash keys, stub-directory order, clock, pid, earlier jobs, thread placement and (in concurrent rounds) interleaving at intercepted libc calls were decided by the seed; compared with the canonical run of the same program (keys 0, sorted directory, fresh process). distinct_nontrivial counts distinct (program digest, hash-order fingerprint of the job's thread at job start) pairs among the non-canonical jobs.",
             "samples": [sample],
             "scenarios": scenarios.len(),
             "programs": programs.len(),
